@@ -140,7 +140,18 @@ def _links(text):
     return [sorted(n["links"]) for n in r["notes"]]
 
 
-def _run_case(ctx, case) -> F.Outcome:
+def _run_case(ctx, case, cwd_sub=None) -> F.Outcome:
+    if case[0] == "cwd":
+        # the same rename started from a sub-directory of the notes directory (which holds pages whose
+        # names are the ones given on the command line): names are relative to --dir, not to the cwd
+        _, sub, pi, subset = case
+        A, B, files = build(ctx.seed, pi, subset)
+        res = _run_case(ctx, [pi, subset], cwd_sub=sub)
+        if not res.ok:
+            res.detail["started_from"] = "<notes directory>/" + sub
+        if res.nontrivial:
+            res.nontrivial = H.digest(case)
+        return res
     if case[0] == "spelled":
         # the same rename with the notes directory spelled through a symlink / with a '..'
         H.set_dir_spelling(case[1])
@@ -162,7 +173,21 @@ def _run_case(ctx, case) -> F.Outcome:
         (zd / b_rel).parent.mkdir(parents=True, exist_ok=True)
         argA = str(zd / A[4:]) if A.startswith("ABS:") else A
         argB = str(zd / B[4:]) if B.startswith("ABS:") else B
-        r = H.run_cli(zd, "file", "rename", argA, argB)
+        if cwd_sub is not None:
+            # the sub-directory holds a page with the OLD name and links to it of its own
+            (zd / cwd_sub).mkdir(parents=True, exist_ok=True)
+            extra = {f"{cwd_sub}/{link_name(A)}.zo": "# a page of the same name in the sub-directory\n\n- 240130#LS see [[" + link_name(A) + "]] and [["
+                     + cwd_sub + "/" + link_name(A) + "]]\n"}
+            for rel, text in extra.items():
+                if rel not in files:
+                    (zd / rel).parent.mkdir(parents=True, exist_ok=True)
+                    Z.write_text(zd / rel, text)
+                    files[rel] = text
+            H.set_cli_cwd(zd / cwd_sub)
+        try:
+            r = H.run_cli(zd, "file", "rename", argA, argB)
+        finally:
+            H.set_cli_cwd(None)
         after = Z.snapshot(zd, with_meta=False)
         a_rel = link_name(A) + ".zo"
         want = {}
@@ -216,6 +241,10 @@ def _cases(ctx):
             for subset in it.combinations(range(n), k):
                 cases.append([pi, list(subset)])
         cases.append([pi, list(range(n))])
+    for pi in (0, 1, 9):
+        for subset in ([0], [0, 1], list(range(n))):
+            cases.append(["cwd", "proj", pi, subset])
+            cases.append(["cwd", "deep/er", pi, subset])
     cases.append([0, "big"])
     cases.append([3, "big"])
     # the notes directory spelled through a symlink / with a '..' (names given relative to it)
@@ -229,6 +258,8 @@ def _cases(ctx):
 
 
 def _sample(ctx, case):
+    if case[0] == "cwd":
+        return dict(_sample(ctx, case[2:]), started_from="<notes directory>/" + case[1])
     if case[1] == "big":
         A, B, files = build_big(ctx.seed, case[0])
         return {"rename": [A, B], "pages": sorted(files)[:6] + ["..."], "sizes": sorted({len(v) for v in files.values()})[-3:]}
